@@ -9,7 +9,7 @@ from ref import tlv as R
 from units.cfdp_tlv import CONCRETE, CONDITION_CODES, HANDLER_CODES, UNITS, bt, enum_status_codes, hx
 
 PROPERTY = "C08"
-LEVEL = "exploration"
+LEVEL = "model_checking"  # bounded-exhaustive enumeration of executions against a reference model (DESIGN.md 1, 2.1)
 EXHAUSTIVE = True
 RULE = (
     "generic: CfdpTlv for each of the 6 defined type octets and CfdpLv over every octet string of length <= 2 plus 5 shaped "
